@@ -78,7 +78,8 @@ def ops_for(kind):
         ops += [('q', 'xd', 0)]
     if kind == 'flat':
         ops += [('q', 'xx', 0), ('q', 'xz', 0)]
-    ops += [('q', 'x', '0!'), ('qi', 'ix', '0!'), ('q2', 'x', 'y')]     # q2: two events in one queue() call
+    # q2 / q2d: several events in one queue() call (q2d: with decreasing delays)
+    ops += [('q', 'x', '0!'), ('qi', 'ix', '0!'), ('q2', 'x', 'y'), ('q2d', 'x', 2, 'y', 1, 'x', 0)]
     return ops
 
 
@@ -160,6 +161,12 @@ def apply_op(it, ref, op, listener_log):
         ev = Event(op[1], s=s, delay=0) if op[2] == '0!' else (
             Event(op[1], s=s, delay=op[2]) if op[2] else Event(op[1], s=s))
         it.queue(ev)
+    elif k == 'q2d':
+        evs = []
+        for name, d in ((op[1], op[2]), (op[3], op[4]), (op[5], op[6])):
+            sx = ref.queue(name, d)
+            evs.append(Event(name, s=sx, delay=d) if d else Event(name, s=sx))
+        it.queue(*evs)
     elif k == 'q2':
         s1 = ref.queue(op[1], 0)
         s2 = ref.queue(op[2], 0)
@@ -242,6 +249,8 @@ def enabled(ref, op):
         return len(ref.external) < CAP
     if op[0] == 'q2':
         return len(ref.external) < CAP - 1
+    if op[0] == 'q2d':
+        return len(ref.external) < CAP - 2
     if op[0] == 'qi':
         return len(ref.internal) < CAP
     if op[0] == 'step' and not op[1]:
